@@ -426,6 +426,23 @@ def build_jobs(root: str, pids: List[str]) -> List[tuple]:
                 s = s.replace(o, n)
         for pid in pids:
             jobs.append(("benign", vid, pid, root, {rel: s} if ok else None))
+    # whole-package benign variant: every file re-emitted by ast.unparse (comments gone, layout and line numbers changed)
+    import ast as _ast
+
+    rt = {}
+    for dp, dn, fn in os.walk(os.path.join(root, "tawazi")):
+        for f_ in fn:
+            if f_.endswith(".py"):
+                rel = os.path.relpath(os.path.join(dp, f_), root)
+                try:
+                    rt[rel] = _ast.unparse(_ast.parse(_read(root, rel))) + "\n"
+                except SyntaxError:
+                    rt = None
+                    break
+        if rt is None:
+            break
+    for pid in pids:
+        jobs.append(("benign", "reformat-all-files(ast.unparse)", pid, root, rt))
     seeded = os.path.join(VERIF_DIR, "seeded")
     if os.path.isdir(seeded):
         for sid in sorted(os.listdir(seeded)):
